@@ -7,8 +7,9 @@ use crate::diagnostic::{LintFix, LintFixChange};
 use crate::handler::{Handler, Traverse};
 use crate::tags::{self, Tags};
 use crate::Program;
+use deno_ast::swc::parser::token::Token;
 use deno_ast::view::{JSXAttrOrSpread, JSXOpeningElement, NodeTrait};
-use deno_ast::{SourceRange, SourceRanged};
+use deno_ast::{SourceRange, SourceRanged, SourceRangedForSpanned};
 
 #[derive(Debug)]
 pub struct JSXPropsNoSpreadMulti;
@@ -49,21 +50,33 @@ impl Handler for JSXPropsNoSpreadMultiHandler {
       if let JSXAttrOrSpread::SpreadElement(spread) = attr {
         let text = spread.expr.text();
         if seen.contains(text) {
+          // Remove everything from the end of the token in front of the
+          // attribute's `{` up to and including its `}`. The spread node
+          // itself only covers `...expr`.
+          let mut fixes = Vec::with_capacity(1);
+          let open = attr.range().start.previous_token_fast(ctx.program());
+          let close = attr.range().end.next_token_fast(ctx.program());
+          if let (Some(open), Some(close)) = (open, close) {
+            if open.token == Token::LBrace && close.token == Token::RBrace {
+              let start = open
+                .previous_token_fast(ctx.program())
+                .map(|t| t.end())
+                .unwrap_or(open.start());
+              fixes.push(LintFix {
+                description: "Remove this spread attribute".into(),
+                changes: vec![LintFixChange {
+                  new_text: "".into(),
+                  range: SourceRange::new(start, close.end()),
+                }],
+              });
+            }
+          }
           ctx.add_diagnostic_with_fixes(
             spread.range(),
             CODE,
             MESSAGE,
             Some(HINT.to_string()),
-            vec![LintFix {
-              description: "Remove this spread attribute".into(),
-              changes: vec![LintFixChange {
-                new_text: "".into(),
-                range: SourceRange {
-                  start: attr.range().start - 2,
-                  end: attr.range().end + 1,
-                },
-              }],
-            }],
+            fixes,
           );
         }
 
